@@ -83,6 +83,14 @@ CLAIMED = {
         "compared with the extracted functions.",
    note=BASE + "Permanence flags are read from the implementation (it follows automatically resolved choices); the model decides their soundness per node.",
    technique="Coq theorems about an extracted Gallina model + differential correspondence with the implementation", design="§6 C17"),
+ 'C09': dict(
+   text="Theorems (any settings, any existence pattern, any size): enum_M lists exactly the matrices satisfying the declarative "
+        "ValidM (per-pair limits from parallel limit, finite degrees, repeatability, exclusions, absent nodes; row/column sums in "
+        "the allowed degrees), each once; validate accepts a matrix iff ValidM iff enumerated; count = length. get_agg_matrix, "
+        "iter_matrices, validate_matrix on whole boxes of integer matrices and count_matrices are compared with the extracted "
+        "functions, bounded-exhaustively on small shapes and randomly up to 3x3 with overrides and exclusions.",
+   note=BASE + "The implementation's column-wise recursion / numba code is not modelled line by line: the model is an independent enumerator proved against ValidM. F8 (validate false accept with overrides) and F9 (over-count with overrides) fixed by 0ce93b8, d344083.",
+   technique="Coq theorems about an extracted Gallina model + differential correspondence with the implementation", design="§6 C09"),
 }
 NA_REASON = "machinery under construction in this round; not yet claimed"
 
